@@ -139,6 +139,12 @@ PROPS = {
     "C03": {
         "level": "proof",
         "units": ["namecheck", "namebuilder", "nameparse"],
+        "extra_searches": [
+            {"bin": "c07_search_layouts", "crate": "replay_net", "release": True,
+             "what": "names from the zone-file scanner (shared with C07): labels of 63 / 64 / 65 octets written plainly, with a decimal or a character "
+                     "escape, first or behind a label that contains an escape, are accepted exactly up to 63 octets and come back with their full "
+                     "length -- on the real crate"},
+        ],
         "vx_search": {"bin": "c03_search_builder_sequences", "crate": "replay", "release": True,
                       "what": "all octet strings of at most 6 octets over {0,1,2,63,64,'a'} through Name/RelativeName::from_slice against a "
                               "reference checker, and all NameBuilder operation sequences of at most 5 steps over sizes that reach the "
@@ -644,6 +650,17 @@ PROPS = {
         "level": "proof",
         "level_prefix": "Partial proof -- contracts discharged without bound on the mechanisms named below, not the whole statement (bounded stand-ins and what is left out are listed): ",
         "units": ["zfsource"],
+        "extra_searches": [
+            {"bin": "c07_search_layouts", "crate": "replay_net", "release": True,
+             "what": "the second half of the statement, as a metamorphic exploration: a 9-record zone (SOA, NS, A, AAAA, CNAME, MX, TXT, SRV) written in "
+                     "15 552 combinations of layout choices that must not matter -- owner absolute / relative to $ORIGIN / `@` / inherited; TTL explicit / "
+                     "from $TTL / from the last stated TTL, before or after the class; class inherited; relative names in record data; tabs and runs of "
+                     "blanks; trailing comments; data in parentheses, continuation lines with comments, parentheses glued to tokens and to the owner; "
+                     "decimal and character escapes in owner names; blank and comment lines; CRLF; origin stated in the file or handed to the reader -- "
+                     "each read back as exactly the records of the canonical layout; and 84 spellings of 63/64-octet labels and 255/256-octet character "
+                     "strings (plain, escaped, quoted, behind an escaped label) judged alike. On the real crate; a bounded exploration, never counted as "
+                     "an obligation"},
+        ],
         "vx_search": {"bin": "c07_search_small_files", "crate": "replay_net",
                       "what": "all 30941 zone files of at most 4 octets over the tokenizer's 13 special octets, read through the public API "
                               "under a 10 s progress watchdog"},
@@ -674,7 +691,7 @@ PROPS = {
                        "next_symbol / next_char_symbol / next_ascii_symbol / peek_symbol / skip_at_token / skip_unknown_marker keep "
                        "the read position inside the buffer, their unreachable!() arms are unreachable, and a symbol is consumed "
                        "only if one is handed out; split_to/trim_to keep the invariant (their asserts are preconditions).",
-        "not_covered": "Layout independence (a relation between two runs on two files; no contract on a single call expresses it), "
+        "not_covered": "Layout independence beyond the metamorphic search c07_search_layouts (a relation between two runs on two files; no contract on a single call expresses it), "
                        "EntryScanner (scan_entry, scan_name, convert_token, in-place rewriting with from_utf8_unchecked), record-data "
                        "scan() functions, $ORIGIN/$TTL/class inheritance, error positions. Symbol::from_slice_index is assumed to "
                        "return an end position inside the buffer (its own totality is not proved).",
